@@ -88,6 +88,37 @@ func c06WaitOrder(c *Check, P string, r *RouterRoles2) {
 		}
 	}
 	c.Floor(P+".O1", "Add on the in-flight counter", nadd, 1)
+	// the counter and its mutex are the router's own, handed to every handler: Close waits for "no invocation running in this
+	// router", also of handlers that were stopped and have left the handler map meanwhile
+	if hs, isS := r.HandlerT.Underlying().(*types.Struct); isS {
+		nsh := 0
+		for i := 0; i < hs.NumFields(); i++ {
+			f := hs.Field(i)
+			if t := f.Type().String(); t != "*sync.WaitGroup" && t != "*sync.Mutex" {
+				continue
+			}
+			for _, fn := range r.Funcs {
+				for _, st := range FieldStores(fn, f) {
+					nsh++
+					okShared := AllOrigins(st.Val, func(o ssa.Value) bool {
+						lf := LoadedField(o)
+						if lf == nil {
+							return false
+						}
+						rs, _ := r.R.Underlying().(*types.Struct)
+						for j := 0; rs != nil && j < rs.NumFields(); j++ {
+							if rs.Field(j) == lf {
+								return true
+							}
+						}
+						return false
+					})
+					c.Report(okShared, P+".O1", "IN-FLIGHT-COUNTER-IS-THE-ROUTERS", fn, st.Pos(), "store to handler."+f.Name(), "a handler's in-flight counter and its mutex are the router's (one per router, shared by all its handlers), not objects of the handler's own")
+				}
+			}
+		}
+		c.Floor(P+".O1", "handler fields holding the router's in-flight counter / mutex", nsh, 2)
+	}
 	for _, fn := range r.Funcs {
 		for _, w := range r.waitsOn(fn, r.WRun) {
 			held := r.LA.Held(w)
